@@ -235,7 +235,15 @@ pub fn gen_b3_value(tag: &str, src: &mut Src) -> String {
     match tag {
         "103" => upper(src, 3),
         "113" => upper(src, 4),
-        "108" => format!("MUR{}", xtext(src, 1, 13)),
+        "108" => {
+            // one reference in four looks like another tag's opening ("119:", "121:") without its brace
+            if src.chance(1, 4) {
+                src.pick(&["PMT/119:COV/0001", "REF121:20240101", "X/103:ABC/Y", "A111:001B"])
+                    .to_string()
+            } else {
+                format!("MUR{}", xtext(src, 1, 13))
+            }
+        }
         "119" => src.pick(&["STP", "REMIT", "RFDD", "COV"]).to_string(),
         "423" => format!(
             "{}{}{}{}",
@@ -249,7 +257,13 @@ pub fn gen_b3_value(tag: &str, src: &mut Src) -> String {
             }
         ),
         "106" => gen_mir(src),
-        "424" => format!("REL{}", xtext(src, 1, 13)),
+        "424" => {
+            if src.chance(1, 4) {
+                src.pick(&["REL/108:INNER", "R119:STP/1"]).to_string()
+            } else {
+                format!("REL{}", xtext(src, 1, 13))
+            }
+        }
         "111" => digits(src, 3),
         "121" => {
             let h = |src: &mut Src, n: usize| -> String {
